@@ -144,6 +144,10 @@ def run_case(case):
                     o['data']['shape'][0] = n_
             ch_ = [o for o in sp['ops'] if o['op'] == 'channel'][-1]
             ch_['data'] = {'dtype': '<f8', 'shape': [n_], 'layout': 'C', 'fill': {'kind': 'special', 'seed': r.randrange(50)}}
+            if r.random() < 0.6:
+                # floats of moderate size beyond the target's range (no floating-point flag tells numpy's loops apart)
+                ch_['data']['fill'] = {'kind': 'oor', 'bad_at': [[r.randrange(n_), r.randrange(1000)] for _ in range(r.choice([0, 1, 1, 2]))]}
+                bump('cast-of-out-of-range-floats')
             ch_['cast_dtype'] = {'$dtype': r.choice(['uint32', 'uint32', 'int32', 'uint16', 'int16']), 'as': 'type'}
             bump('cast-of-special-values')
         rows = [o for o in sp['ops'] if o['op'] == 'channel'][0]['data']['shape'][0]
